@@ -16,6 +16,7 @@ from .theory import TInt, TBool, TF, TStr, TList, TTuple, TRec, TOpt, TDict, TBa
 def install(eng):
     b = eng.builtins
     b['len'] = _len
+    b['chr'] = _chr
     b['str'] = _str
     b['int'] = _int
     b['copy.copy'] = _copy
@@ -35,9 +36,11 @@ def install(eng):
     b['method.join'] = _join
     b['method.copy'] = lambda eng, e, st, val, valexpr, args, kw: val
     b['collections:Counter'] = _counter_new
+    b['method.clear'] = _dict_clear
     install_config(eng)
     b['heapq.heappush'] = _heappush
     b['sys.setrecursionlimit'] = lambda eng, e, st, args, kw: PNone()
+    b['traceback.print_exc'] = _print_exc
     install_os(eng)
     install_argparse(eng)
     b['heapq.heappop'] = _heappop
@@ -45,6 +48,13 @@ def install(eng):
 
 def _use(eng, name):
     eng.assumed.add('builtin:' + name)
+
+
+def _chr(eng, e, st, args, kw):
+    v = args[0]
+    if isinstance(v, ZV) and v.pyval is not None:
+        return zstr(chr(v.pyval))
+    return ZV(TStr, T.schar(eng.as_int(v)))
 
 
 def _len(eng, e, st, args, kw):
@@ -282,6 +292,10 @@ def contains(eng, container, item, st, node):
 
 def _join(eng, e, st, val, valexpr, args, kw):
     """sep.join(xs) for sep == '' only."""
+    if isinstance(val, ZV) and val.pyval not in (None, '') and isinstance(args[0], ZV) and isinstance(args[0].shape, TList):
+        key = ''.join('%02x' % ord(c) for c in val.pyval)
+        f = z3.Function('s_join_' + key, TList(TStr).sort(), T.Str)
+        return ZV(TStr, f(args[0].term))
     if not (isinstance(val, ZV) and val.pyval == ''):
         raise Unsupported('join with a non-empty separator')
     xs = args[0]
@@ -496,6 +510,21 @@ s_split_tab = z3.Function('s_split_tab', T.Str, TList(TStr).sort())   # str.spli
 s_isfloat = z3.Function('s_isfloat', T.Str, T.BoolS)
 
 
+def _encode(eng, e, st, val, valexpr, args, kw):
+    """s.encode(enc): assumed not to raise (A-CODEC: the text was decoded with / is encodable in the ruleset's encoding)"""
+    _use(eng, 'A-CODEC: str.encode(encoding) of text read with that encoding does not raise')
+    return PNone()
+
+
+def _print_exc(eng, e, st, args, kw):
+    """traceback.print_exc(file=...): recorded as a stdout event when the file is not sys.stderr"""
+    import ast as _ast
+    tgt = [k for k in e.keywords if k.arg == 'file']
+    if tgt and _ast.unparse(tgt[0].value) != 'sys.stderr':
+        eng.stdout_events.append({'fn': eng.cur.qualname, 'line': e.lineno, 'what': 'traceback.print_exc(file=%s)' % _ast.unparse(tgt[0].value)})
+    return PNone()
+
+
 def _path_join(eng, e, st, args, kw):
     _use(eng, 'os.path.join is a function of its components')
     t = box(args[0], TStr)
@@ -512,9 +541,77 @@ def _seek(eng, e, st, args, kw):
     return PNone()
 
 
+def _startswith(eng, e, st, val, valexpr, args, kw):
+    pat = args[0]
+    if isinstance(val, ZV) and val.shape == TStr and isinstance(pat, ZV) and pat.pyval is not None:
+        s = val.term
+        return ZV(TBool, z3.And([T.slen(s) >= len(pat.pyval)] + [eng.char_at(s, z3.IntVal(i)) == ord(ch) for i, ch in enumerate(pat.pyval)]))
+    raise Unsupported('startswith form')
+
+
+def _endswith(eng, e, st, val, valexpr, args, kw):
+    pat = args[0]
+    if isinstance(val, ZV) and val.shape == TStr and isinstance(pat, ZV) and pat.pyval is not None:
+        s = val.term
+        n = T.slen(s)
+        L = len(pat.pyval)
+        return ZV(TBool, z3.And([n >= L] + [T.sch(s, n - L + i) == ord(ch) for i, ch in enumerate(pat.pyval)]))
+    raise Unsupported('endswith form')
+
+
+BYTES = T._Prim('bytes', z3.DeclareSort('Bytes'))
+hex_bytes = z3.Function('hex_bytes', T.Str, BYTES.sort())
+hex_ok = z3.Function('hex_ok', T.Str, T.BoolS)
+bytes_decode = z3.Function('bytes_decode', BYTES.sort(), T.Str, T.Str)
+decode_ok = z3.Function('decode_ok', BYTES.sort(), T.Str, T.BoolS)
+
+
+def _fromhex(eng, e, st, args, kw):
+    """bytes.fromhex(s): ValueError when s is not hex"""
+    s = box(args[0], TStr)
+    k = st.choose(2)
+    if k == 1:
+        st.assume(z3.Not(hex_ok(s)))
+        raise RaisePath(st, 'ValueError')
+    st.assume(hex_ok(s))
+    return ZV(BYTES, hex_bytes(s))
+
+
+def _decode(eng, e, st, val, valexpr, args, kw):
+    if isinstance(val, ZV) and val.shape == BYTES:
+        enc = box(args[0], TStr)
+        k = st.choose(2)
+        if k == 1:
+            st.assume(z3.Not(decode_ok(val.term, enc)))
+            raise RaisePath(st, 'UnicodeDecodeError')
+        st.assume(decode_ok(val.term, enc))
+        return ZV(TStr, bytes_decode(val.term, enc))
+    raise Unsupported('.decode() on %r' % (val,))
+
+
+def _readline(eng, e, st, args, kw):
+    """file.readline(): the next line, '' at end of file; UnicodeError is possible for undecodable bytes"""
+    f = args[0]
+    lines, pos = f.fields['lines'], f.fields['pos']
+    k = st.choose(3)
+    if k == 2:
+        # an undecodable line is consumed
+        st.assume(pos.term < TList(TStr).len(lines.term))
+        eng.assign(e.func.value, f.with_field('pos', ZV(TInt, pos.term + 1)), st)
+        raise RaisePath(st, 'UnicodeError')
+    if k == 1:
+        st.assume(pos.term >= TList(TStr).len(lines.term))
+        return zstr('')
+    st.assume(pos.term < TList(TStr).len(lines.term))
+    line = z3.Select(TList(TStr).arr(lines.term), pos.term)
+    st.assume(T.slen(line) >= 1)
+    eng.assign(e.func.value, f.with_field('pos', ZV(TInt, pos.term + 1)), st)
+    return ZV(TStr, line)
+
+
 def _rstrip(eng, e, st, val, valexpr, args, kw):
     if args:
-        raise Unsupported('rstrip with arguments')
+        return _strip_fn('rstrip')(eng, e, st, val, valexpr, args, kw)
     if isinstance(val, ZV) and val.shape == TStr:
         if val.pyval is not None:
             return zstr(val.pyval.rstrip())
@@ -522,9 +619,36 @@ def _rstrip(eng, e, st, val, valexpr, args, kw):
     raise Unsupported('.rstrip() on %r' % (val,))
 
 
+_strip_fns = {}
+
+
+def _strip_fn(name):
+    def h(eng, e, st, val, valexpr, args, kw):
+        if not (isinstance(val, ZV) and val.shape == TStr):
+            raise Unsupported('.%s() on %r' % (name, val))
+        if val.pyval is not None and all(isinstance(a, ZV) and a.pyval is not None for a in args):
+            return zstr(getattr(val.pyval, name)(*[a.pyval for a in args]))
+        key = name + ''.join('_%s' % ''.join('%02x' % ord(c) for c in a.pyval) for a in args if isinstance(a, ZV) and a.pyval is not None)
+        if key not in _strip_fns:
+            _strip_fns[key] = z3.Function('s_' + key, T.Str, T.Str)
+        return ZV(TStr, _strip_fns[key](val.term))
+    return h
+
+
+_split_fns = {}
+
+
 def _split(eng, e, st, val, valexpr, args, kw):
-    if not (len(args) == 1 and isinstance(args[0], ZV) and args[0].pyval == '\t'):
-        raise Unsupported("split with a separator other than TAB")
+    if not (len(args) == 1 and isinstance(args[0], ZV) and args[0].pyval is not None):
+        raise Unsupported("split without a literal separator")
+    if args[0].pyval != '\t':
+        sep = args[0].pyval
+        key = ''.join('%02x' % ord(c) for c in sep)
+        if key not in _split_fns:
+            _split_fns[key] = z3.Function('s_split_' + key, T.Str, TList(TStr).sort())
+        r = _split_fns[key](val.term)
+        st.assume(TList(TStr).len(r) >= 1)
+        return ZV(TList(TStr), r)
     if isinstance(val, ZV) and val.shape == TStr:
         _use(eng, "str.split('\\t') returns at least one field")
         r = s_split_tab(val.term)
@@ -593,12 +717,22 @@ def _input(eng, e, st, args, kw):
 def install_os(eng):
     b = eng.builtins
     b['open'] = _open
+    b['codecs.open'] = _open
+    b['method.encode'] = _encode
     b['os.path.join'] = _path_join
     b['os.path.dirname'] = lambda eng, e, st, args, kw: ZV(TStr, p_dirname(box(args[0], TStr)))
     b['os.path.realpath'] = lambda eng, e, st, args, kw: ZV(TStr, p_realpath(box(args[0], TStr)))
     b['time.perf_counter'] = lambda eng, e, st, args, kw: fresh(TF, 'clock')
     b[FILE_CLS + '.seek'] = _seek
     b['method.rstrip'] = _rstrip
+    b['method.startswith'] = _startswith
+    b['method.endswith'] = _endswith
+    b['bytes.fromhex'] = _fromhex
+    b['method.decode'] = _decode
+    b[FILE_CLS + '.readline'] = _readline
+    b[FILE_CLS + '.close'] = lambda eng, e, st, args, kw: PNone()
+    b['method.strip'] = _strip_fn('strip')
+    b['method.lstrip'] = _strip_fn('lstrip')
     b['method.split'] = _split
     b['float'] = _float
     b['method.insert'] = _insert
@@ -640,4 +774,16 @@ def _counter_new(eng, e, st, args, kw):
     if args:
         raise Unsupported('Counter(iterable)')
     empty = COUNTER_STR.mk(z3.K(T.Str, z3.BoolVal(False)), z3.K(T.Str, z3.IntVal(0)))
-    return ZV(COUNTER_STR, empty)
+    return ZV(COUNTER_STR, empty, pyval='EMPTY_COUNTER')
+
+
+def empty_dict(shape):
+    return shape.mk(z3.K(shape.k.sort(), z3.BoolVal(False)), z3.K(shape.k.sort(), z3.IntVal(0) if shape.v == TInt else T.F_ZERO)
+                    if shape.v in (TInt, TF) else z3.Const('dict_empty_values_' + T._san(shape.key()), z3.ArraySort(shape.k.sort(), shape.v.sort())))
+
+
+def _dict_clear(eng, e, st, val, valexpr, args, kw):
+    if isinstance(val, ZV) and isinstance(val.shape, TDict):
+        eng.assign(valexpr, ZV(val.shape, empty_dict(val.shape)), st)
+        return PNone()
+    raise Unsupported('.clear() on %r' % (val,))
